@@ -245,7 +245,8 @@ void exercise(const std::string& path, size_t image_size, int mode, bool verify,
             exec::Buf pb((size_t)psz); uint8_t* probe = pb.get(); for (int32_t q = 0; q < psz; q++) probe[q] = (uint8_t)(q + 1);     // exactly value_size bytes: reading more is an over-read
             st = cq::reader_row_group_matches(rd, g, c, (carquet_compare_op_t)r.below(6), probe, psz, &mm);
             if (!in_range) SIM_CHECK(st != CARQUET_OK, "contract.out_of_range_index_accepted", "row_group_matches(rg=%d of %d, col=%d of %d) returned OK", g, nrgs, c, ncols);
-            if (c >= 0 && c < ncols) { int32_t out[8]; int32_t n = cq::reader_filter_row_groups(rd, c, (carquet_compare_op_t)r.below(6), probe, psz, out, 8); SIM_CHECK(n <= 8, "contract.filter_overflows_output", "filter_row_groups(max 8) returned %d", n); }
+            { int32_t out[8]; int32_t n = cq::reader_filter_row_groups(rd, c, (carquet_compare_op_t)r.below(6), probe, psz, out, 8); SIM_CHECK(n <= 8, "contract.filter_overflows_output", "filter_row_groups(max 8) returned %d", n);
+              if (c < 0 || c >= ncols) SIM_CHECK(n < 0, "contract.out_of_range_index_accepted", "filter_row_groups(col=%d of %d) returned %d instead of an error", c, ncols, n); }
         } else if (k == 11) {
             carquet_row_group_metadata_t md; carquet_status_t st = cq::reader_row_group_metadata(rd, g, &md);
             if (g < 0 || g >= nrgs) SIM_CHECK(st != CARQUET_OK, "contract.out_of_range_index_accepted", "row_group_metadata(%d of %d) returned OK", g, nrgs);
